@@ -233,6 +233,34 @@ func TestC17(t *testing.T) {
 				r.Emit("sid.pattern "+strings.Join(hf, " "), strings.Join(hl, " "))
 			}
 		}
+		// ... and when the application asks for the identifier from inside its "remote key stored"
+		// callback (which runs while SetRemote is in progress), later answers are still right
+		{
+			var live *mailbox.ConnData
+			var inCallback [][64]byte
+			live = mailbox.NewConnData(&keychain.PrivKeyECDH{PrivKey: key(k)}, nil, ea, nil,
+				func(*btcec.PublicKey) error {
+					if sid, err := live.SID(); err == nil {
+						inCallback = append(inCallback, sid)
+					}
+					return nil
+				}, nil)
+			before, _ := live.SID()
+			_ = before
+			for step, rem := range []int{k + 1, k + 2} {
+				if err := live.SetRemote(key(rem).PubKey()); err != nil {
+					r.Violate("C17/sid-error", err.Error(), rem)
+					break
+				}
+				got, err1 := live.SID()
+				want, err2 := mk(cfg{k, rem, ea}).SID()
+				if err1 != nil || err2 != nil || got != want {
+					r.Violate("C17/stale-sid-after-key-change", fmt.Sprintf("local key %d, SID() called from the remote-key callback: after SetRemote(%d) (step %d) SID() differs from the identifier a fresh ConnData derives (%v %v)",
+						k, rem, step+1, err1, err2), map[string]interface{}{"local": k, "remote": rem, "sid_in_callback": true})
+				}
+			}
+			r.Case(fmt.Sprintf("sid-in-callback:%d", k), true, "sid-history")
+		}
 		for _, s := range sids[:2] {
 			c2s, s2c := mailbox.GetSID(s, false), mailbox.GetSID(s, true)
 			r.Emit(fmt.Sprintf("sid.getsid %s 0", hx(s[:])), hx(c2s[:]))
